@@ -1,31 +1,227 @@
 // Conformance driver for spec/containers/OrderedMap.tla (property C10, FlatMap part).
-// Interprets the actions of the specification on a real rkcommon FlatMap and
-// reports the projection the specification's `last.exp` talks about.
-// Variants map the model's integer keys/values onto concrete KEY/VALUE types.
+// Interprets the actions of the specification on real rkcommon FlatMaps and
+// reports the projection the specification's `last.exp` talks about.  It decides
+// nothing: where two overloads / iterator families must agree it reports both
+// results as one string when they differ, which no expected value equals.
+//
+// Variants map the model's integer keys/values onto concrete KEY/VALUE types:
+//   ii  FlatMap<int, int>            ss  FlatMap<std::string, std::string>
+//   si  FlatMap<std::string, int>    is  FlatMap<int, std::string>
+//   Li  FlatMap<int64_t, int>        iu  FlatMap<int, std::unique_ptr<int>>   (move-only values)
+//   tt  FlatMap<TKey, TVal>          key copies / value default constructions throw on request
+// "shadow" (input line): between any two steps an unrelated FlatMap of the same type is
+// written, read and erased from; nothing of it is reported (instances must not share state).
+// "keymap" (input line, default 0) selects the concrete keys / values the model
+// integers 0, 1, 2 stand for: type extremes and negative ints, keys equal modulo
+// 2^8 / 2^16 / 2^32, strings that are empty, contain NUL or bytes >= 0x80, that
+// are equal up to a NUL / up to a long prefix.  Every map is injective on the
+// model integers used with it (the inverse is applied to what the map returns;
+// anything outside comes back as "unmapped:...").
+#include <cstdint>
+#include <climits>
+#include <memory>
 #include <string>
+#include <type_traits>
 #include "driver.h"
 #include "rkcommon/containers/FlatMap.h"
 
 using rkcommon::containers::FlatMap;
 using vj::Json;
 
-template <typename T> struct Conv;
-template <> struct Conv<int>
+static int g_keymap = 0;
+
+static std::string hexOf(const std::string &s)
+{
+  static const char *d = "0123456789abcdef";
+  std::string r;
+  for (size_t i = 0; i < s.size() && i < 40; ++i) {
+    r += d[(unsigned char)s[i] >> 4];
+    r += d[(unsigned char)s[i] & 15];
+  }
+  if (s.size() > 40) r += "...(" + std::to_string(s.size()) + " bytes)";
+  return r;
+}
+
+// ---- concrete keys -----------------------------------------------------------
+template <typename T> struct KeyConv;
+template <> struct KeyConv<int>
+{
+  static bool table(long long v, int &out)
+  {
+    if (v < 0 || v > 2) return false;
+    static const int t1[3] = {INT_MIN, -1, INT_MAX};
+    static const int t2[3] = {0, 256, 65536};
+    static const int t3[3] = {1, 257, 65537};
+    static const int t4[3] = {-256, -65536, INT_MIN + 1};
+    switch (g_keymap) {
+    case 1: out = t1[v]; return true;
+    case 2: out = t2[v]; return true;
+    case 3: out = t3[v]; return true;
+    case 4: out = t4[v]; return true;
+    }
+    return false;
+  }
+  static int to(long long v) { int o; return table(v, o) ? o : (int)v; }
+  static Json from(const int &k)
+  {
+    for (long long v = 0; v <= 2; ++v) { int o; if (table(v, o) && o == k) return Json(v); }
+    if (g_keymap != 0 && k >= 0 && k <= 2) return Json("unmapped:" + std::to_string(k));
+    return Json(k);
+  }
+};
+template <> struct KeyConv<int64_t>
+{
+  static bool table(long long v, int64_t &out)
+  {
+    if (v < 0 || v > 2) return false;
+    static const int64_t t1[3] = {INT64_MIN, (int64_t)1 << 32, INT64_MAX};
+    static const int64_t t2[3] = {0, (int64_t)1 << 32, (int64_t)1 << 33};
+    static const int64_t t3[3] = {-1, ((int64_t)1 << 32) - 1, ((int64_t)1 << 32) + 1};
+    switch (g_keymap) {
+    case 1: out = t1[v]; return true;
+    case 2: out = t2[v]; return true;
+    case 3: out = t3[v]; return true;
+    }
+    return false;
+  }
+  static int64_t to(long long v) { int64_t o; return table(v, o) ? o : (int64_t)v; }
+  static Json from(const int64_t &k)
+  {
+    for (long long v = 0; v <= 2; ++v) { int64_t o; if (table(v, o) && o == k) return Json(v); }
+    if (g_keymap != 0 && k >= 0 && k <= 2) return Json("unmapped:" + std::to_string((long long)k));
+    if (k > INT_MAX || k < INT_MIN) return Json("unmapped:" + std::to_string((long long)k));
+    return Json((long long)k);
+  }
+};
+static const std::string &longPrefix(char c)
+{
+  static const std::string k(1000, 'k'), v(300, 'v');
+  return c == 'k' ? k : v;
+}
+template <> struct KeyConv<std::string>
+{
+  // plain: 0 <-> "" (the default-constructed key), n <-> "s<n>"
+  static bool table(long long v, std::string &out)
+  {
+    if (v < 0 || v > 2) return false;
+    switch (g_keymap) {
+    case 1: out = std::string((size_t)v, '\0'); return true;                                  // "", "\0", "\0\0"
+    case 2: out = v == 0 ? std::string("a") : v == 1 ? std::string("a\0", 2) : std::string("a\0b", 3); return true;
+    case 3: out = v == 0 ? std::string("\xff") : v == 1 ? std::string("\x80") : std::string("\x7f\xff"); return true;
+    case 4: out = v == 0 ? longPrefix('k') + "0" : v == 1 ? longPrefix('k') + "1" : longPrefix('k'); return true;
+    }
+    return false;
+  }
+  static std::string to(long long v)
+  {
+    std::string o;
+    if (table(v, o)) return o;
+    return v == 0 ? std::string() : "s" + std::to_string(v);
+  }
+  static Json from(const std::string &s)
+  {
+    for (long long v = 0; v <= 2; ++v) { std::string o; if (table(v, o) && o == s) return Json(v); }
+    if (s.empty()) return g_keymap == 0 ? Json(0) : Json("unmapped:<empty>");
+    if (s[0] != 's' || s.size() < 2 || s.size() > 11) return Json("unmapped:" + hexOf(s));
+    for (size_t i = 1; i < s.size(); ++i) if (s[i] < '0' || s[i] > '9') return Json("unmapped:" + hexOf(s));
+    long long v = atoll(s.c_str() + 1);
+    if (g_keymap != 0 && v <= 2) return Json("unmapped:" + hexOf(s));
+    return Json(v);
+  }
+};
+
+// ---- concrete values (0 is always the default-constructed VALUE()) -------------
+template <typename T> struct ValConv;
+template <> struct ValConv<int>
 {
   static int to(long long v) { return (int)v; }
   static Json from(const int &v) { return Json(v); }
 };
-template <> struct Conv<std::string>
+template <> struct ValConv<std::string>
 {
-  // 0 <-> "" (the default-constructed value); n <-> "s<n>"
-  static std::string to(long long v) { return v == 0 ? std::string() : "s" + std::to_string(v); }
+  static bool table(long long v, std::string &out)
+  {
+    if (v < 1 || v > 2) return false;
+    switch (g_keymap) {
+    case 1: out = std::string((size_t)v, '\0'); return true;                 // "\0", "\0\0"
+    case 4: out = longPrefix('v') + std::to_string(v); return true;          // heap strings, equal up to a long prefix
+    }
+    return false;
+  }
+  static std::string to(long long v)
+  {
+    std::string o;
+    if (table(v, o)) return o;
+    return v == 0 ? std::string() : "s" + std::to_string(v);
+  }
   static Json from(const std::string &s)
   {
+    for (long long v = 1; v <= 2; ++v) { std::string o; if (table(v, o) && o == s) return Json(v); }
     if (s.empty()) return Json(0);
-    if (s[0] != 's') return Json("unmapped:" + s);
+    if (s[0] != 's' || s.size() < 2 || s.size() > 11) return Json("unmapped:" + hexOf(s));
+    for (size_t i = 1; i < s.size(); ++i) if (s[i] < '0' || s[i] > '9') return Json("unmapped:" + hexOf(s));
     return Json(atoll(s.c_str() + 1));
   }
 };
+template <> struct ValConv<std::unique_ptr<int>>
+{
+  static std::unique_ptr<int> to(long long v) { return std::unique_ptr<int>(v == 0 ? nullptr : new int((int)v)); }
+  static Json from(const std::unique_ptr<int> &p) { return p ? Json(*p) : Json(0); }
+};
+
+// ---- key / value types whose copy / default construction throws on request -----
+struct Boom : std::exception
+{
+  const char *what() const noexcept override { return "requested failure"; }
+};
+struct TKey
+{
+  int v;
+  static bool armed;   // the next copy (construction or assignment) of a TKey throws
+  explicit TKey(int x = 0) : v(x) {}
+  TKey(const TKey &o) : v(o.v) { fire(); }
+  TKey &operator=(const TKey &o) { fire(); v = o.v; return *this; }
+  bool operator==(const TKey &o) const { return v == o.v; }
+  bool operator!=(const TKey &o) const { return v != o.v; }
+  static void fire() { if (armed) { armed = false; throw Boom(); } }
+};
+bool TKey::armed = false;
+struct TVal
+{
+  int v;
+  static bool armed;   // the next default construction of a TVal throws
+  TVal() : v(0) { if (armed) { armed = false; throw Boom(); } }
+  explicit TVal(int x) : v(x) {}
+};
+bool TVal::armed = false;
+template <> struct KeyConv<TKey>
+{
+  static TKey to(long long v) { return TKey((int)v); }
+  static Json from(const TKey &k) { return Json(k.v); }
+};
+template <> struct ValConv<TVal>
+{
+  static TVal to(long long v) { return TVal((int)v); }
+  static Json from(const TVal &x) { return Json(x.v); }
+};
+template <typename K, typename V> struct Throwing
+{
+  static bool arm(const std::string &) { return false; }
+  static void disarm() {}
+};
+template <> struct Throwing<TKey, TVal>
+{
+  static bool arm(const std::string &w)
+  {
+    if (w == "key") TKey::armed = true; else TVal::armed = true;
+    return true;
+  }
+  static void disarm() { TKey::armed = false; TVal::armed = false; }
+};
+
+static const long long HASH_MOD = 65521;
+static const long long PROBE_IDX[] = {127, 128, 254, 255, 256, 257, 511, 512, 1023, 1024, 4095, 4096, 65534, 65535, 65536};
+static const size_t ITEMS_PRINTED_UP_TO = 2000;   // beyond: digest only (the specification compares the digest from 1101 on)
 
 struct IWorld
 {
@@ -36,42 +232,106 @@ struct IWorld
 template <typename KEY, typename VALUE>
 struct MapWorld : IWorld
 {
-  FlatMap<KEY, VALUE> map;
+  typedef FlatMap<KEY, VALUE> Map;
+  Map *map, *s;
+  Map other;          // "shadow" runs: an unrelated third map is used between any two steps; nothing of it is reported
+  bool shadow;
+  long long tick;
+  explicit MapWorld(bool sh) : map(new Map()), s(new Map()), shadow(sh), tick(0) {}
 
-  Json items() const
+  // calls on an unrelated instance (same keys, other values, other removals): they must not show in `map` / `s`
+  void perturb(const Json &arg)
+  {
+    ++tick;
+    long long k = arg.has("k") ? arg["k"].num() : arg.has("i") ? arg["i"].num() : tick % 3;
+    other[KeyConv<KEY>::to(k)] = ValConv<VALUE>::to(k % 2 + 1 + tick % 2);
+    (void)other.contains(KeyConv<KEY>::to((k + 1) % 3));
+    if (other.size() > 0) (void)other.at_index(other.size() - 1);
+    try { (void)other.at(KeyConv<KEY>::to((k + 2) % 3)); } catch (const std::out_of_range &) {}
+    other.erase(KeyConv<KEY>::to((k + tick) % 3));
+    if (tick % 7 == 0) other.clear();
+  }
+  ~MapWorld() override { delete map; delete s; }
+
+  static Json pairOf(const typename Map::item_t &p)
+  {
+    Json j = Json::array();
+    j.push(KeyConv<KEY>::from(p.first));
+    j.push(ValConv<VALUE>::from(p.second));
+    return j;
+  }
+  template <typename IT> static Json listOf(IT b, IT e)
   {
     Json a = Json::array();
-    for (auto it = map.begin(); it != map.end(); ++it) { // non-const object: mutable iterators
-      Json p = Json::array();
-      p.push(Conv<KEY>::from(it->first));
-      p.push(Conv<VALUE>::from(it->second));
-      a.push(p);
-    }
+    for (; b != e; ++b) a.push(pairOf(*b));
     return a;
   }
+  static Json items(Map &mm) { return listOf(mm.begin(), mm.end()); }   // non-const object: mutable iterators
+
+  static long long hnum(const Json &j) { long long v = j.type == Json::Int ? j.num() : -7; return ((v % HASH_MOD) + HASH_MOD) % HASH_MOD; }
+  static void digest(Map &mm, Json &d)
+  {
+    long long h = 7;
+    size_t n = mm.size();
+    for (auto it = mm.begin(); it != mm.end(); ++it) {
+      Json p = pairOf(*it);
+      h = (h * 31 + hnum(p.a[0]) * 7 + hnum(p.a[1])) % HASH_MOD;
+    }
+    d.set("dig_hash", h);
+    Json head = Json::array(), tail = Json::array(), probes = Json::array();
+    for (size_t i = 0; i < n && i < 3; ++i) head.push(pairOf(mm.at_index(i)));
+    for (size_t i = n > 3 ? n - 3 : 0; i < n; ++i) tail.push(pairOf(mm.at_index(i)));
+    for (size_t j = 0; j < sizeof(PROBE_IDX) / sizeof(PROBE_IDX[0]); ++j)
+      probes.push((size_t)PROBE_IDX[j] < n ? pairOf(mm.at_index((size_t)PROBE_IDX[j])) : Json::array());
+    d.set("dig_head", head);
+    d.set("dig_tail", tail);
+    d.set("dig_probes", probes);
+  }
+
+  // whole-map operations need copyable values (FlatMap declares no move operations: a "move" is a copy)
+  template <typename V2> typename std::enable_if<std::is_copy_constructible<V2>::value, bool>::type whole(const std::string &a)
+  {
+    if (a == "CopyTo") *s = *map;
+    else if (a == "CopyFrom") *map = *s;
+    else if (a == "CopyCtor") { Map *n = new Map(*map); delete s; s = n; }
+    else if (a == "MoveCtor") { Map *n = new Map(std::move(*map)); delete s; s = n; map->clear(); }
+    else if (a == "MoveAssign") { *s = std::move(*map); map->clear(); }
+    else if (a == "SelfAssign") { Map &alias = *map; *map = alias; }
+    else if (a == "Swap") std::swap(*map, *s);
+    else return false;
+    return true;
+  }
+  template <typename V2> typename std::enable_if<!std::is_copy_constructible<V2>::value, bool>::type whole(const std::string &) { return false; }
+
+  static long long rv(long long k, long long d) { return ((k * 7 + d) % 997) + 1; }
 
   Json step(const Json &act) override
   {
     const std::string &a = act["a"].str();
     const Json &arg = act["arg"];
     Json o = Json::object();
+    if (shadow) perturb(arg);
     if (a == "Put") {
-      VALUE &r = (map[Conv<KEY>::to(arg["k"].num())] = Conv<VALUE>::to(arg["v"].num()));
-      o.set("ret", Conv<VALUE>::from(r));
+      VALUE &r = ((*map)[KeyConv<KEY>::to(arg["k"].num())] = ValConv<VALUE>::to(arg["v"].num()));
+      o.set("ret", ValConv<VALUE>::from(r));
+    } else if (a == "Put2") {
+      VALUE &r = ((*s)[KeyConv<KEY>::to(arg["k"].num())] = ValConv<VALUE>::to(arg["v"].num()));
+      o.set("ret", ValConv<VALUE>::from(r));
     } else if (a == "GetOrInsert") {
-      VALUE v = map[Conv<KEY>::to(arg["k"].num())];
-      o.set("ret", Conv<VALUE>::from(v));
+      const KEY k = KeyConv<KEY>::to(arg["k"].num());   // an lvalue key
+      const VALUE &v = (*map)[k];
+      o.set("ret", ValConv<VALUE>::from(v));
     } else if (a == "At") {
       // const and non-const at() are evaluated independently: both must give the specified outcome
       Json r1, r2;
       try {
-        const FlatMap<KEY, VALUE> &cm = map;
-        r1 = Conv<VALUE>::from(cm.at(Conv<KEY>::to(arg["k"].num())));
+        const Map &cm = *map;
+        r1 = ValConv<VALUE>::from(cm.at(KeyConv<KEY>::to(arg["k"].num())));
       } catch (const std::out_of_range &) {
         r1 = Json("throws");
       }
       try {
-        r2 = Conv<VALUE>::from(map.at(Conv<KEY>::to(arg["k"].num())));
+        r2 = ValConv<VALUE>::from(map->at(KeyConv<KEY>::to(arg["k"].num())));
       } catch (const std::out_of_range &) {
         r2 = Json("throws");
       }
@@ -79,75 +339,136 @@ struct MapWorld : IWorld
       else o.set("ret", "const at(): " + r1.dump() + " / non-const at(): " + r2.dump());
     } else if (a == "AtAssign") {
       try {
-        map.at(Conv<KEY>::to(arg["k"].num())) = Conv<VALUE>::to(arg["v"].num());
+        map->at(KeyConv<KEY>::to(arg["k"].num())) = ValConv<VALUE>::to(arg["v"].num());
         o.set("ret", arg["v"]);
       } catch (const std::out_of_range &) {
         o.set("ret", "throws");
       }
+    } else if (a == "ConstIndex") {
+#ifdef ORDERED_MAP_PROBE_CONST_INDEX
+      const Map &cm = *map;
+      if (!cm.contains(KeyConv<KEY>::to(arg["k"].num()))) o.set("ret", "not-callable");   // absent key: not constrained, no call
+      else o.set("ret", ValConv<VALUE>::from(cm[KeyConv<KEY>::to(arg["k"].num())]));
+#else
+      o.set("ret", "operator[] const is not instantiated in this build");
+#endif
     } else if (a == "Contains") {
-      o.set("ret", map.contains(Conv<KEY>::to(arg["k"].num())));
+      o.set("ret", map->contains(KeyConv<KEY>::to(arg["k"].num())));
     } else if (a == "Erase") {
-      map.erase(Conv<KEY>::to(arg["k"].num()));
+      map->erase(KeyConv<KEY>::to(arg["k"].num()));
       o.set("ret", "void");
+    } else if (a == "Erase2") {
+      s->erase(KeyConv<KEY>::to(arg["k"].num()));
+      o.set("ret", "void");
+    } else if (a == "EraseAt") {
+      // the key argument is the key object stored in the map
+      try {
+        map->erase(map->at_index((size_t)arg["i"].num()).first);
+        o.set("ret", "void");
+      } catch (const std::out_of_range &) {
+        o.set("ret", "throws");
+      }
     } else if (a == "Clear") {
-      map.clear();
+      map->clear();
+      o.set("ret", "void");
+    } else if (a == "Clear2") {
+      s->clear();
       o.set("ret", "void");
     } else if (a == "AtIndex") {
       Json r1, r2;
       try {
-        const FlatMap<KEY, VALUE> &cm = map;
-        auto &p = cm.at_index((size_t)arg["i"].num());
-        r1 = Json::array();
-        r1.push(Conv<KEY>::from(p.first));
-        r1.push(Conv<VALUE>::from(p.second));
+        const Map &cm = *map;
+        r1 = pairOf(cm.at_index((size_t)arg["i"].num()));
       } catch (const std::out_of_range &) {
         r1 = Json("throws");
       }
       try {
-        auto &q = map.at_index((size_t)arg["i"].num());
-        r2 = Json::array();
-        r2.push(Conv<KEY>::from(q.first));
-        r2.push(Conv<VALUE>::from(q.second));
+        r2 = pairOf(map->at_index((size_t)arg["i"].num()));
       } catch (const std::out_of_range &) {
         r2 = Json("throws");
       }
       if (r1 == r2) o.set("ret", r1);
       else o.set("ret", "const at_index(): " + r1.dump() + " / non-const at_index(): " + r2.dump());
+    } else if (a == "AtIndexAssign") {
+      try {
+        map->at_index((size_t)arg["i"].num()).second = ValConv<VALUE>::to(arg["v"].num());
+        o.set("ret", arg["v"]);
+      } catch (const std::out_of_range &) {
+        o.set("ret", "throws");
+      }
+    } else if (a == "IterAssign") {
+      if ((size_t)arg["i"].num() >= map->size()) {
+        o.set("ret", "not-callable");   // no such iterator
+      } else {
+        auto it = map->begin();
+        it += (long)arg["i"].num();
+        it->second = ValConv<VALUE>::to(arg["v"].num());
+        o.set("ret", ValConv<VALUE>::from(it->second));
+      }
     } else if (a == "IterRev") {
-      Json r = Json::array();
-      for (auto it = map.rbegin(); it != map.rend(); ++it) {
-        Json p = Json::array();
-        p.push(Conv<KEY>::from(it->first));
-        p.push(Conv<VALUE>::from(it->second));
-        r.push(p);
-      }
-      const FlatMap<KEY, VALUE> &cm = map;
-      size_t n = 0;
-      for (auto it = cm.crbegin(); it != cm.crend(); ++it) ++n;
-      if (n != r.size()) r.push("crbegin/crend length differs");
-      o.set("ret", r);
+      // the three reverse families must show the same sequence
+      const Map &cm = *map;
+      Json r = listOf(map->rbegin(), map->rend());
+      Json rc = listOf(cm.rbegin(), cm.rend());
+      Json rcc = listOf(cm.crbegin(), cm.crend());
+      if (r == rc && r == rcc) o.set("ret", r);
+      else o.set("ret", "rbegin/rend: " + r.dump() + " / const rbegin/rend: " + rc.dump() + " / crbegin/crend: " + rcc.dump());
     } else if (a == "IterConst") {
-      const FlatMap<KEY, VALUE> &cm = map;
-      Json r = Json::array();
-      for (auto it = cm.cbegin(); it != cm.cend(); ++it) {
-        Json p = Json::array();
-        p.push(Conv<KEY>::from(it->first));
-        p.push(Conv<VALUE>::from(it->second));
-        r.push(p);
-      }
-      size_t n = 0;
-      for (auto it = cm.begin(); it != cm.end(); ++it) ++n;
-      if (n != r.size()) r.push("const begin/end length differs");
-      o.set("ret", r);
+      const Map &cm = *map;
+      Json r = listOf(cm.cbegin(), cm.cend());
+      Json rc = listOf(cm.begin(), cm.end());
+      Json rm = listOf(map->begin(), map->end());
+      if (r == rc && r == rm) o.set("ret", r);
+      else o.set("ret", "cbegin/cend: " + r.dump() + " / const begin/end: " + rc.dump() + " / begin/end: " + rm.dump());
     } else if (a == "Reserve") {
-      map.reserve((size_t)arg["n"].num());
+      map->reserve((size_t)arg["n"].num());
+      o.set("ret", "void");
+    } else if (a == "InsertThrows") {
+      const KEY k = KeyConv<KEY>::to(arg["k"].num());   // built before the failure is armed
+      if (map->contains(k)) {
+        o.set("ret", "not-callable");   // a present key is not inserted
+      } else if (!Throwing<KEY, VALUE>::arm(arg["w"].str())) {
+        o.set("ret", "this variant has no throwing key / value type");
+      } else {
+        try {
+          const VALUE &v = (*map)[k];
+          o.set("ret", ValConv<VALUE>::from(v));
+        } catch (const Boom &) {
+          o.set("ret", "throws");
+        }
+        Throwing<KEY, VALUE>::disarm();
+      }
+    } else if (a == "PutRange") {
+      long long lo = arg["lo"].num(), n = arg["n"].num(), d = arg["d"].num();
+      for (long long k = lo; k < lo + n; ++k) (*map)[KeyConv<KEY>::to(k)] = ValConv<VALUE>::to(rv(k, d));
+      o.set("ret", "void");
+    } else if (a == "EraseEvery") {
+      long long lo = arg["lo"].num(), n = arg["n"].num(), st = arg["st"].num(), r = arg["r"].num();
+      if (arg["how"].str() == "key") {
+        for (long long k = lo; k < lo + n; ++k)
+          if (k % st == r) map->erase(KeyConv<KEY>::to(k));
+      } else {
+        // one pass over the entries; the key passed to erase() is the stored key object
+        size_t i = 0;
+        while (i < map->size()) {
+          Json kj = KeyConv<KEY>::from(map->at_index(i).first);
+          long long k = kj.type == Json::Int ? kj.num() : -1;
+          if (k >= lo && k < lo + n && k % st == r) map->erase(map->at_index(i).first);
+          else ++i;
+        }
+      }
+      o.set("ret", "void");
+    } else if (whole<VALUE>(a)) {
       o.set("ret", "void");
     } else {
-      o.set("ret", "unknown action " + a);
+      o.set("ret", "unknown or unsupported action " + a);
     }
-    o.set("size", (long long)map.size());
-    o.set("empty", map.empty() != 0);
-    o.set("items", items());
+    size_t n = map->size();
+    o.set("size", (long long)n);
+    o.set("empty", map->empty() != 0);
+    if (n <= ITEMS_PRINTED_UP_TO) o.set("items", items(*map));
+    if (n > 1000) digest(*map, o);
+    o.set("items2", s->size() <= ITEMS_PRINTED_UP_TO ? items(*s) : Json("too large"));
     return o;
   }
 };
@@ -158,10 +479,15 @@ struct World
   World(const Json &hist)
   {
     const std::string v = hist["variant"].str();
-    if (v == "ss") w = new MapWorld<std::string, std::string>();
-    else if (v == "si") w = new MapWorld<std::string, int>();
-    else if (v == "is") w = new MapWorld<int, std::string>();
-    else w = new MapWorld<int, int>();
+    g_keymap = hist.has("keymap") ? (int)hist["keymap"].num() : 0;
+    const bool sh = hist.has("shadow") && hist["shadow"].num() != 0;
+    if (v == "ss") w = new MapWorld<std::string, std::string>(sh);
+    else if (v == "si") w = new MapWorld<std::string, int>(sh);
+    else if (v == "is") w = new MapWorld<int, std::string>(sh);
+    else if (v == "Li") w = new MapWorld<int64_t, int>(sh);
+    else if (v == "iu") w = new MapWorld<int, std::unique_ptr<int>>(sh);
+    else if (v == "tt") w = new MapWorld<TKey, TVal>(sh);
+    else w = new MapWorld<int, int>(sh);
   }
   ~World() { delete w; }
   Json step(const Json &act) { return w->step(act); }
